@@ -54,6 +54,12 @@ def input_for(kind: str, arity: int) -> list[list]:
     if kind == "huge":
         st = (I("http://a/x"), I("http://a/p"), L("z" * HUGE))
         return [[st if arity == 3 else (*st, I("http://a/g"))]]
+    if kind == "same_in_groups":
+        # the same triple in consecutive graphs / datasets (and, flat, as immediate duplicates)
+        if arity == 3:
+            return [[T3[0]], [T3[0]], [T3[0], T3[1]]]
+        return [[(*T3[0], I("http://a/g"))], [(*T3[0], B("g"))],
+                [(*T3[0], DEFAULT), (*T3[1], DEFAULT)]]
     if kind == "one":
         return [base[:1]]
     if kind == "five":
@@ -149,6 +155,16 @@ def run_case(case: dict):
             except Exception:  # noqa: BLE001
                 pass
             data, delimited, stream = build(case, opts)
+        elif case.get("reuse_flow"):
+            # the caller's options object (with its explicit flow object) serves two complete
+            # serialisations one after the other; the second one is judged
+            lt, fs = case["logical"], case["frame_size"]
+            opts = DR.make_options(case["cls"], (8, 4, 2), fs, case["delimited"], lt,
+                                   generalized=(case["api"] == "generic"),
+                                   rdf_star=(case["api"] == "generic"),
+                                   flow=make_flow(case["flow"], lt, fs))
+            build(case, opts)
+            data, delimited, stream = build(case, opts)
         else:
             data, delimited, stream = build(case)
     except Exception as e:  # noqa: BLE001
@@ -168,7 +184,13 @@ def run_case(case: dict):
         return "violation", ("invalid-output", f"accepted but output is not a valid stream: {e}")
     as_set = case["api"] == "rdflib" and case["entry"] not in ("stream_frames_gen", "flat_to_file") \
         or (case["api"] == "rdflib" and case["cls"] == "graph")
-    same = (set(got) == set(expect)) if as_set else (got == expect)
+    if as_set and case["entry"] == "grouped_to_file":
+        # one container per group: duplicates across groups are separate statements
+        import collections  # noqa: PLC0415
+
+        same = collections.Counter(got) == collections.Counter(expect)
+    else:
+        same = (set(got) == set(expect)) if as_set else (got == expect)
     if not same:
         missing = [s for s in expect if s not in got]
         return "violation", ("statements-missing", f"accepted and returned, but {len(missing)} of "
@@ -201,6 +223,13 @@ def all_points(frame_sizes) -> list:
                                     if inp == "three_groups" and entry != "grouped_to_file":
                                         continue
                                     pts.append((api, entry, cls, lt, dl, fs, flow, inp, False))
+                                if flow in ("inferred", "GraphsFrameFlow", "DatasetsFrameFlow",
+                                            "ManualFrameFlow"):
+                                    pts.append((api, entry, cls, lt, dl, fs, flow,
+                                                "same_in_groups", False))
+                                if flow != "inferred" and fs == 2:
+                                    pts.append((api, entry, cls, lt, dl, fs, flow, "five",
+                                                "flow"))
                                 if flow == "inferred" and fs != 1:
                                     # options object reused after a failed call
                                     pts.append((api, entry, cls, lt, dl, fs, flow, "five", True))
@@ -222,7 +251,8 @@ def shard(job) -> dict:
     acc = pool.Acc()
     for api, entry, cls, lt, dl, fs, flow, inp, reuse in all_points(frame_sizes)[lo::hi]:
         case = {"api": api, "entry": entry, "cls": cls, "logical": lt, "delimited": dl,
-                "frame_size": fs, "flow": flow, "input": inp, "reuse": reuse}
+                "frame_size": fs, "flow": flow, "input": inp, "reuse": reuse is True,
+                "reuse_flow": reuse == "flow"}
         acc.evals += 1
         outcome, info = run_case(case)
         acc.counters[f"outcome:{outcome}"] += 1
